@@ -7,7 +7,7 @@ import z3
 
 from . import vals as V
 from .vals import Val, SeqV, NONE, PyTuple, fresh, is_z3
-from .core import Obj, Callable_, Unsupported, box, as_int, as_seq, unbox_handle, KwPack, ExcClass, BoundMethod, Awaitable_
+from .core import Obj, Callable_, Unsupported, box, as_int, as_seq, unbox_handle, KwPack, ExcClass, BoundMethod, Awaitable_, NOKW
 
 
 # ------------------------------------------------------------------ spec functions (quantifier-free, snoc-instantiated)
@@ -31,6 +31,30 @@ class SpecFn:
         if self.extra:
             facts += self.extra(old, x, new)
         return facts
+
+    # -- homomorphism lemma F(a ++ b) == comb(F(a), F(b)), proved by explicit induction on b (two QF obligations)
+    def hom(self, comb):
+        self.comb = comb
+        return self
+
+    def concat_fact(self, a, b):
+        return self.f(z3.Concat(a, b)) == self.comb(self.f(a), self.f(b))
+
+    def hom_obligations(self):
+        """[(name, hyps, goal)]: base and step of the induction proving concat_fact for all a, b."""
+        a, b = z3.Const('lem_a', SeqV), z3.Const('lem_b', SeqV)
+        x = z3.Const('lem_x', Val)
+        nm = self.f.name()
+        base = (f'lemma {nm}(a++b) == {nm}(a) (+) {nm}(b): base b=[]', self.base_facts(),
+                self.f(z3.Concat(a, V.EMPTY)) == self.comb(self.f(a), self.f(V.EMPTY)))
+        ab = z3.Concat(a, b)
+        bx = z3.Concat(b, z3.Unit(x))
+        hyps = [self.f(ab) == self.comb(self.f(a), self.f(b))]              # induction hypothesis
+        hyps += self.snoc_facts(ab, x, z3.Concat(ab, z3.Unit(x)))
+        hyps += self.snoc_facts(b, x, bx)
+        step = (f'lemma {nm}(a++b) == {nm}(a) (+) {nm}(b): step b -> b++[x]', hyps,
+                self.f(z3.Concat(a, bx)) == self.comb(self.f(a), self.f(bx)))
+        return [base, step]
 
 
 def seqof(v):
@@ -60,7 +84,7 @@ class UFunc(Callable_):
         self.ok = z3.Function(name + '_ok', *([Val] * n), z3.BoolSort())
         self.exc = z3.Function(name + '_exc', *([Val] * n), Val)
         self.raises = raises
-        self.nokw = fresh(name + '_nokw')
+        self.nokw = NOKW
 
     def argv(self, ex, args, kwargs):
         if len(args) != self.arity:
@@ -182,15 +206,32 @@ class Deque(Obj):
 
     def init(self, st, content=None):
         self.set(st, 'q', content if content is not None else V.EMPTY)
+        self.set(st, 'dropped', V.EMPTY)      # ghost: everything a bounded deque has discarded from its left end
 
     def m_append(self, ex, st, args, kwargs, node):
-        st = st.fork()
-        q = z3.Concat(self.get(st, 'q'), z3.Unit(box(ex, args[0])))
-        if self.maxlen is not None:
-            n = z3.Length(q)
-            q = z3.If(n > self.maxlen, z3.SubSeq(q, n - self.maxlen, self.maxlen), q)
-        self.set(st, 'q', q)
-        return [('ok', st, NONE)]
+        x = box(ex, args[0])
+        q = self.get(st, 'q')
+        if self.maxlen is None:
+            st = st.fork()
+            self.set(st, 'q', z3.Concat(q, z3.Unit(x)))
+            return [('ok', st, NONE)]
+        outs = []
+        s1 = st.fork().assume(z3.Length(q) < self.maxlen)
+        if ex.feasible(s1):
+            self.set(s1, 'q', z3.Concat(q, z3.Unit(x)))
+            outs.append(('ok', s1, NONE))
+        s2 = st.fork().assume(z3.Length(q) >= self.maxlen, self.maxlen > 0)
+        if ex.feasible(s2):
+            # full: the oldest element is discarded
+            s2.assume(q == z3.Concat(z3.Unit(q[0]), z3.SubSeq(q, 1, z3.Length(q) - 1)))      # head/tail split of a non-empty sequence
+            self.set(s2, 'dropped', z3.Concat(self.get(s2, 'dropped'), z3.Unit(q[0])))
+            self.set(s2, 'q', z3.Concat(z3.SubSeq(q, 1, z3.Length(q) - 1), z3.Unit(x)))
+            outs.append(('ok', s2, NONE))
+        s3 = st.fork().assume(self.maxlen <= 0)
+        if ex.feasible(s3):
+            self.set(s3, 'dropped', z3.Concat(self.get(s3, 'dropped'), z3.Unit(x)))
+            outs.append(('ok', s3, NONE))
+        return outs
 
     def m_popleft(self, ex, st, args, kwargs, node):
         q = self.get(st, 'q')
